@@ -66,7 +66,7 @@ class ReadPathRun:
             cls = core[t]               # the shipped core definitions (what a fresh process has registered)
             self.defs[t] = (cls.type_size, cls.type_hash)
         self.scratch_layout = 0
-        self.define_scratch(ch.pick("cfg.layout", 2))
+        self.define_scratch(ch.pick("cfg.layout", 3))
         lst = SimSocket(w.net, "mgr")
         lst.bind(("127.0.0.1", w.PORT))
         lst.listen(5)
@@ -128,6 +128,16 @@ class ReadPathRun:
                 type_def = ""
                 a: Int32 = Int32()
                 size: Int32 = Int32()          # (an ordinary field name; it shadows nothing the reader may rely on)
+        elif layout == 2:
+            # an old-style definition: plain ctypes fields and no type_size constant (the reader falls back to the
+            # size of an instance)
+            import ctypes
+
+            class MDF_SCRATCH(pyrtma.MessageData):
+                _fields_ = [("a", ctypes.c_int), ("b", ctypes.c_int), ("c", ctypes.c_double)]
+                type_id = SCRATCH_TYPE
+                type_name = "SCRATCH"
+                type_hash = 0x3333
         else:
             class MDF_SCRATCH(pyrtma.MessageData, metaclass=MessageMeta):
                 type_id = SCRATCH_TYPE
@@ -142,7 +152,10 @@ class ReadPathRun:
                 d: IntArray = IntArray(Int32, 2)
         pyrtma.message_def(MDF_SCRATCH)
         self.scratch_layout = layout
-        self.defs[SCRATCH_TYPE] = (MDF_SCRATCH.type_size, MDF_SCRATCH.type_hash)
+        import ctypes as _ct
+        self.defs[SCRATCH_TYPE] = (_ct.sizeof(MDF_SCRATCH), MDF_SCRATCH.type_hash)
+        if layout == 2:
+            self.res.probes["scratch_old_style_definition"] += 1
 
     def on_client_read(self, sock, data, wanted):
         if self.handshake_done and sock is self.csock:
@@ -621,7 +634,7 @@ class ReadPathRun:
                     self.load_quicklogger_file()
                 elif op == "redefine":
                     # frames already queued keep their old layout: they must now be judged against the new one
-                    self.define_scratch(1 - self.scratch_layout)
+                    self.define_scratch((self.scratch_layout + 1 + ch.pick("rd.layout", 2)) % 3)
                     self.res.probes["scratch_redefined"] += 1
                     self.t(f"message type {SCRATCH_TYPE} re-registered with layout {self.scratch_layout}")
                 elif op == "arrive":
